@@ -1,0 +1,31 @@
+//go:build verif
+// +build verif
+
+package cpu
+
+import (
+	"os"
+	"strconv"
+)
+
+// HostLevel is the level detected for the host before any override.
+var HostLevel = ArchLevel
+
+// With the verif build tag, FASTGO_VERIF_ARCHLEVEL=n selects acceleration
+// level n for this process, capped at what the host CPU can execute. It runs
+// before the init functions of the packages that choose their code paths
+// from ArchLevel.
+func init() {
+	s := os.Getenv("FASTGO_VERIF_ARCHLEVEL")
+	if s == "" {
+		return
+	}
+	n, err := strconv.Atoi(s)
+	if err != nil || n < 0 {
+		return
+	}
+	if n > HostLevel {
+		n = HostLevel
+	}
+	ArchLevel = n
+}
